@@ -196,3 +196,15 @@ Definition rescue_ceth (s : bridge_state) (sender receiver amount : Z) : Outcome
   if negb (sender =? br_oracle_admin s) then bfail else
   if mem receiver (br_blocked s) then bfail else
   b <- bsend2 (br_bank s) BRIDGE_MODULE receiver CETH amount ;; Ok (with_bbank s b).
+
+(* ---- what the order-independence theorems (Proofs/BridgeOrder.v) ask of a state, as booleans: the staking view is a
+   map with non-negative powers, and every stored prophecy lists a validator under at most one claim content, each of
+   them recorded in the validator -> claim map. Evaluated on every observed pre-state by Check/Bridge.v. ---- *)
+Definition claimers (pr : prophecy) : list Z := concat (map snd (pr_claims pr)).
+Fixpoint nodupb (l : list Z) : bool := match l with [] => true | x :: r => negb (mem x r) && nodupb r end.
+Definition staking_wf_b (s : bridge_state) : bool :=
+  nodupb (map fst (br_validators s)) && forallb (fun e : Z * (Z * bool) => 0 <=? fst (snd e)) (br_validators s).
+Definition claims_inv_b (pr : prophecy) : bool :=
+  nodupb (claimers pr) && forallb (fun v => match lookup v (pr_vclaims pr) with Some _ => true | None => false end) (claimers pr).
+Definition bridge_inv_b (s : bridge_state) : bool :=
+  staking_wf_b s && forallb (fun kv : Z * prophecy => claims_inv_b (snd kv)) (br_prophecies s).
